@@ -453,9 +453,9 @@ def rule_r8(repo, run, types):
     run.floor(R, "per-overload records", n, 2)
     # statements per type group
     entries = set()
-    for c in ast.walk(wl.tree):
-        if isinstance(c, ast.keyword) and c.arg == "name" and pyflow.const_str(c.value) and pyflow.const_str(c.value).startswith("lua_"):
-            entries.add(pyflow.const_str(c.value))
+    for key, val in pyflow.table_fields(wl.tree):
+        if key == "name" and pyflow.const_str(val) and pyflow.const_str(val).startswith("lua_"):
+            entries.add(pyflow.const_str(val))
     groups = {}
     for name, t in sorted(types.types.items()):
         if t.get("LUA_push") in (None, "PUSH") or t.get("LUA_pop") in (None, "POP"):
